@@ -134,27 +134,60 @@ def run_case(case):
             else:
                 cands = []
             ts = [Y] + [Y + (k + 1) * (0.3 + u[4]) for k in range(int(u[5] * 3))]
+            # the same quantity may already be overwritten for another population (pair) from an earlier year Y0 on - in both
+            # runs of the pair: the entry under test still has no effect before its own first year Y
+            rng2 = np.random.default_rng(int(u[3] * 1e9) + 7)
+            Y0 = Y - float(s["dt"]) * float(rng2.choice([0.5, 1.0, 2.0, 3.5, 6.0, 40.0]))
+            ts0 = [Y0] + ([Y0 + 0.7 * (Y - Y0)] if rng2.random() < 0.4 else [])
+            with_other = rng2.random() < 0.5
+            scenA = at.ParameterScenario(name="scen", interpolation=scen.interpolation)
             if kind in ("scenario_data", "scenario_function"):
                 if not cands:
                     return {"records": [], "stats": {"no_candidate": 1}, "nontrivial": False}
                 p = cands[int(u[0] * len(cands)) % len(cands)]
                 pop = spec["pops"][int(u[1] * len(spec["pops"])) % len(spec["pops"])]
                 rng = np.random.default_rng(int(u[2] * 1e9))
+                others = [x for x in spec["pops"] if x != pop]
+                if with_other and others:
+                    vals0 = [gen.sample_value(rng2, p["format"], "mild") + 0.01 for _ in ts0]
+                    other = others[int(rng2.integers(0, len(others)))]
+                    first = rng2.random() < 0.5  # (the order in which the entries are given must not matter either)
+                    if first:
+                        scen.add(p["name"], other, ts0, vals0)
+                    scenA.add(p["name"], other, ts0, vals0)
                 scen.add(p["name"], pop, ts, [gen.sample_value(rng, p["format"], "mild") + 0.01 for _ in ts])
+                if with_other and others and not first:
+                    scen.add(p["name"], other, ts0, vals0)
                 target = p["name"]
             elif kind == "scenario_transfer":
                 tr = spec["transfers"][0]
                 a, b, units, _ = tr["entries"][int(u[0] * len(tr["entries"])) % len(tr["entries"])]
                 rng = np.random.default_rng(int(u[2] * 1e9))
+                others = [e for e in tr["entries"] if (e[0], e[1]) != (a, b)]
+                if with_other and others:
+                    e = others[int(rng2.integers(0, len(others)))]
+                    vals0 = [gen.sample_value(rng2, e[2], "mild") + 0.01 for _ in ts0]
+                    scen.add(tr["name"], (e[0], e[1]), ts0, vals0)
+                    scenA.add(tr["name"], (e[0], e[1]), ts0, vals0)
                 scen.add(tr["name"], (a, b), ts, [gen.sample_value(rng, units, "mild") + 0.01 for _ in ts])
                 target = tr["name"]
             else:
                 it = spec["interactions"][0]
                 a, b, _ = it["entries"][int(u[0] * len(it["entries"])) % len(it["entries"])]
+                others = [e for e in it["entries"] if (e[0], e[1]) != (a, b)]
+                if with_other and others:
+                    e = others[int(rng2.integers(0, len(others)))]
+                    vals0 = [0.1 + 3 * float(rng2.random()) for _ in ts0]
+                    scen.add(it["name"], (e[0], e[1]), ts0, vals0)
+                    scenA.add(it["name"], (e[0], e[1]), ts0, vals0)
                 scen.add(it["name"], (a, b), ts, [0.1 + 3 * u[2] for _ in ts])
                 target = it["name"]
+            has_other = bool(scenA.scenario_values)
+            if has_other:
+                R.count("scenario_pairs_with_an_earlier_overwrite_of_the_same_quantity_elsewhere")
             try:
                 parB = scen.get_parset(base_parset, P)
+                parA = scenA.get_parset(base_parset, P) if has_other else None
             except Exception as e:
                 if "has no values to use instead" in str(e):
                     raise
@@ -162,7 +195,7 @@ def run_case(case):
                 R.bad("intervention-applies", "C09:scenario-cannot-be-applied[%s,%s]" % (type(e).__name__, "Y>end" if Y > float(s["end"]) else "Y<=end"), {"Y": Y, "end": float(s["end"]), "target": target, "error": str(e)[:200]})
                 return {"records": R.records(), "stats": R.stats, "nontrivial": False}
             instr = gen.build_instructions(ps) if (ps is not None and u[4] < 0.4) else None
-            rA, rB = run(instr=instr), run(parset=parB, instr=instr)
+            rA, rB = run(parset=parA, instr=instr), run(parset=parB, instr=instr)
         elif kind == "stop_year":
             stop = max(Y, t0)
             iB = gen.build_instructions(ps, {"start": t0, "stop": stop})
